@@ -3,13 +3,15 @@ C30 — model of form-body parsing (`tornado.httputil.parse_body_arguments`, `pa
 `escape.parse_qs_bytes`), core Lean only.
 
 Bytes are `List Nat` (0..255), text is `List Nat` (code points).  `HTTPHeaders.parse(..., _chars_are_bytes=False)`
-is the C06 model, `_parse_header` (with the D22 `fix:`) and the stdlib helpers are the C43 model.
+is the C06 model; the stdlib helpers and the parameter decoding of `_parse_header` (with the D22 `fix:`) are the
+C43 model.  `_parseparam` is modelled here, as it is after the `fix:` commit d01e7a8 (a double quote is escaped only
+by an odd number of preceding backslashes); `parseHeader` below is `C43.parseHeader` over that `_parseparam`.
 -/
 import TornadoModel.C06.Model
 import TornadoModel.C43.Model
 namespace TornadoModel.C30
 open TornadoModel.C06 (Str)
-open TornadoModel.C43 (strip splitAll splitFirst ofAscii utf8Dec utf8Enc parseHeader unquoteLatin1 plusToSpace)
+open TornadoModel.C43 (strip splitAll splitFirst ofAscii utf8Dec utf8Enc unquoteLatin1 plusToSpace)
 
 abbrev Bytes := List Nat
 
@@ -97,6 +99,43 @@ def hget (h : C06.Headers) (name : String) : Option Str :=
   match C06.getItem h (ofAscii name) with
   | .ok (v, _) => some v
   | .error _ => none
+
+/-! ### `_parseparam` / `_parse_header` (after the `fix:` commit d01e7a8) -/
+
+/-- `_parseparam(";" + line)` before the `strip()` of each piece: `line` is cut at every `;` at which the number of
+    *unescaped* double quotes, counted from the start of the piece, is even.  The Python code counts
+    `count('"') - count('\\"')` on a copy of the string in which every escaped backslash (`\\`, replaced left to right) is
+    blanked out, so a quote is left out exactly when an odd number of backslashes precedes it.
+    `odd` = parity so far, `bs` = the previous character is a backslash that is not itself escaped.
+    (Before the fix `bs` was "the previous character is a backslash": `C43.segs`.) -/
+def segs : Str → Bool → Bool → List Str
+  | [], _, _ => [[]]
+  | c :: cs, odd, bs =>
+    if c = 59 && !odd then [] :: segs cs false false
+    else
+      let odd' := if c = 34 && !bs then !odd else odd
+      match segs cs odd' (c = 92 && !bs) with
+      | w :: ws => (c :: w) :: ws
+      | [] => [[c]]
+
+def parseparam (line : Str) : List Str := (segs line false false).map strip
+
+/-- `_parse_header`: `C43.parseHeader` with the fixed `_parseparam` (the decoding of the pieces is unchanged) -/
+def parseHeader (line : Str) : Except C43.Err (Str × List (Str × Str)) :=
+  match parseparam line with
+  | [] => .error (.uncaught "StopIteration")     -- unreachable: `segs` never returns []
+  | key :: ps =>
+    match C43.groupParams (C43.rawParams ps) {} with
+    | .error e => .error e
+    | .ok g =>
+      let d0 : List (Str × Str) :=
+        g.plain.foldl (fun d (n, v) => C43.dset n (C43.emailUnquote ([34] ++ C43.emailQuote v ++ [34])) d) []
+      if g.ext.any (fun (_, conts) => conts.any (fun c => c.1.isNone) && conts.any (fun c => c.1.isSome)) then
+        .error (.uncaught "TypeError")
+      else
+        match g.ext.foldlM (fun d (n, conts) => (C43.rfc2231Value conts).map (fun v => C43.dset n v d)) d0 with
+        | .error e => .error e
+        | .ok d => .ok (key, d)
 
 /-! ### `parse_multipart_form_data` -/
 
